@@ -62,6 +62,7 @@ class ClassInfo:
         self.metaclass_name: Optional[str] = None
         self.class_kwds: Dict[str, ast.expr] = {}
         self.methods: Dict[str, FuncInfo] = {}
+        self.setters: Dict[str, FuncInfo] = {}      # property setters, by property name
         self.attrs: Dict[str, ast.expr] = {}     # class-level simple assignments
         self.slots: Optional[List[str]] = None
 
@@ -122,7 +123,7 @@ class Program:
                 self._load(only)
 
     def _load(self, only):
-        for cached in ("_symbol_dirs", "_conv_attr"):       # derived facts of an earlier load
+        for cached in ("_symbol_dirs", "_conv_attr", "_conv_list_cls"):       # derived facts of an earlier load
             self.__dict__.pop(cached, None)
         self.modules: Dict[str, Module] = {}
         self.classes: Dict[str, ClassInfo] = {}
@@ -300,6 +301,7 @@ class Program:
                 elif "classmethod" in decs:
                     kind = "classmethod"
                 elif "setter" in decs:
+                    ci.setters[st.name] = FuncInfo(st.name, m, ci, st, "setter")
                     continue
                 ci.methods[st.name] = FuncInfo(st.name, m, ci, st, kind)
             elif isinstance(st, ast.Assign):
@@ -373,6 +375,14 @@ class Program:
         for c in self.mro(ci):
             if name in c.methods:
                 return c.methods[name]
+        return None
+
+    def lookup_setter(self, ci: ClassInfo, name: str) -> Optional[FuncInfo]:
+        for c in self.mro(ci):
+            if name in c.setters:
+                return c.setters[name]
+            if name in c.methods:
+                return None     # a plain attribute / read-only property of a nearer class shadows it
         return None
 
     def lookup_attr(self, ci: ClassInfo, name: str) -> Optional[ast.expr]:
